@@ -173,7 +173,30 @@ fn bulk_text(rng: &mut Rng) -> Scenario {
     Scenario { subjects, paths: vec![FIXED_PATH.to_string()], clock_start: CLOCK_FLOOR + rng.below(1 << 30), hash_seed: rng.next_u64(), ops }
 }
 
+/// One expression that is big in one dimension (gen::giant_expression), in three layouts so that the
+/// three kinds of comparison (second parse, clone, handles held) all see it; compiled twice, again
+/// after a clock shift, and again on fresh threads.
+fn giant(rng: &mut Rng) -> Scenario {
+    let g = gen::giant_expression(rng);
+    let subjects = vec![g.clone(), format!("{g} "), format!(" {g} ")];
+    let mut ops = vec![Op::Compile { subj: 0, slot: 0, script: vec![], twice: true }];
+    for s in 0..3 {
+        ops.push(Op::Compare { a: s, b: s });
+    }
+    ops.push(Op::Compare { a: 0, b: 1 });
+    ops.push(Op::ClockShift { delta: *rng.pick(&SHIFTS) });
+    ops.push(Op::Compile { subj: 1, slot: 1, script: vec![], twice: false });
+    ops.push(Op::NewEpoch);
+    ops.push(Op::Compile { subj: 0, slot: 2, script: vec![], twice: false });
+    ops.push(Op::SwitchThread { t: 1 });
+    ops.push(Op::Compile { subj: 2, slot: 0, script: vec![], twice: true });
+    Scenario { subjects, paths: vec![FIXED_PATH.to_string()], clock_start: CLOCK_FLOOR + rng.below(1 << 30), hash_seed: rng.next_u64(), ops }
+}
+
 pub fn scenario(rng: &mut Rng, tier: Tier) -> Scenario {
+    if rng.chance(1, 1_500) {
+        return giant(rng);
+    }
     if tier == Tier::Thorough && rng.chance(1, 25_000) {
         return marathon(rng);
     }
@@ -189,6 +212,8 @@ pub fn scenario(rng: &mut Rng, tier: Tier) -> Scenario {
             subjects.push(rng.pick(&gen::DEGENERATE_SUBJECTS).to_string());
         } else if rng.chance(1, 60) {
             subjects.push(gen::report_expression(rng));
+        } else if rng.chance(1, 30) {
+            subjects.push(gen::nested_expression(rng));
         } else {
             let cfg = subject_cfg(rng, tier);
             subjects.push(gen::expression(rng, &cfg));
@@ -690,7 +715,7 @@ pub static PROP: crate::histcheck::HistProp = crate::histcheck::HistProp {
     id: "C15",
     scenario,
     judge,
-    rule: "One case = one seeded call history (10-60 operations, one in a hundred 150-600, in the thorough tier rare marathons of 20000-70000 compiles; one history in 2000 passes 5-40 MiB of distinct long inputs through one caller: parse, compile [once or twice from one tree], render, io_map, unrelated compilations that may fail part-way, clock shifts incl. backward steps and 2^33 s jumps, per-read clock scripts inside compile calls, caller-thread switches, hash-key epoch changes on fresh OS threads, logger level flips, environment changes [variables, simulated file system, working directory, CPU set]) over 1-4 generated expressions (well-formed ones from the whole vocabulary with boundary numbers and layout variants; ill-formed ones: GNU spellings the parser rejects, compile-refused constructs mid-expression), executed against the real parse/compile/scheme/io_map in a fresh child process per block; a sample of the histories is executed again in six further fresh processes with the same and with different hash seeds. Non-trivial = the history holds at least two successful compiles of one expression that has >= 2 hashed resources (distinct name/path patterns, printers) or >= 1 time test, and between them the clock window or the hash-key epoch/thread differs. distinct_nontrivial counts distinct shapes (hash of the operation-kind sequence with subjects, thread ids, shift signs and script activity) among the non-trivial histories.",
+    rule: "One case = one seeded call history (10-60 operations, one in a hundred 150-600, in the thorough tier rare marathons of 20000-70000 compiles; one history in 2000 passes 5-40 MiB of distinct long inputs through one caller, one in 1500 is about one giant expression (300-1000 distinct patterns or output files, or one string of 70 000 / 1 100 000 bytes): parse, compile [once or twice from one tree], render, io_map, unrelated compilations that may fail part-way, clock shifts incl. backward steps and 2^33 s jumps, per-read clock scripts inside compile calls, caller-thread switches, hash-key epoch changes on fresh OS threads, logger level flips, environment changes [variables, simulated file system, working directory, CPU set]) over 1-4 generated expressions (well-formed ones from the whole vocabulary with boundary numbers and layout variants; ill-formed ones: GNU spellings the parser rejects, compile-refused constructs mid-expression), executed against the real parse/compile/scheme/io_map in a fresh child process per block; a sample of the histories is executed again in six further fresh processes with the same and with different hash seeds. Non-trivial = the history holds at least two successful compiles of one expression that has >= 2 hashed resources (distinct name/path patterns, printers) or >= 1 time test, and between them the clock window or the hash-key epoch/thread differs. distinct_nontrivial counts distinct shapes (hash of the operation-kind sequence with subjects, thread ids, shift signs and script activity) among the non-trivial histories.",
     assumptions: &[
         "std reaches the wall clock only through libc clock_gettime and hash keys only through libc getrandom (both interposed by the harness binary; verified live at the start of every check)",
         "a digit run >= 10^9 in a program is either a number written in the expression (alone or times a size unit) or clock-derived; the simulated clock stays within [10^9 + 7, 2^40 - 12345] so that its clamped values are not round constants",
